@@ -75,6 +75,20 @@ def run_spec(arg):
     text = g["text"]
     out["text"] = text
     what = g.get("what", ("meta", "ops", "modes", "vars", "params"))
+    if g.get("concrete_only"):
+        # skeletons whose comparison needs float tolerance (coefficients that are not dyadic go through SymPy's own float
+        # arithmetic): native runs on a few valuations against the exact reference, no solver verdict
+        nv = len(lv.vars)
+        out.update(paths=1, reach=1, validated=0)
+        for base in (0, 1, 2):
+            vals = [(0.5 + 0.75 * ((i + base) % 5) if k == "float" else 2 + ((3 * i + base) % 7)) for i, (_, k, _) in enumerate(lv.vars)]
+            r = concrete_check(mod, spec, vals, plain_env())
+            out["validated"] += 1
+            if isinstance(r, dict):
+                r["symbolic_what"] = r.get("what")
+                out.update(result="violation", cex=r)
+                break
+        return out
     try:
         cases = ref_cases(w, text, lv, True)
     except RX.RefError as e:
